@@ -83,6 +83,65 @@ def _norm(pc) -> tuple:
   return tuple(out)
 
 
+def _eval3(text: str, asg: Dict[str, bool]):
+  """three-valued truth of a host condition text under an assignment of its simple atoms (None = unknown)"""
+  import ast
+
+  try:
+    node = ast.parse(text, mode="eval").body
+  except SyntaxError:
+    return None
+
+  def ev(n):
+    if isinstance(n, ast.BoolOp):
+      vs = [ev(v) for v in n.values]
+      if isinstance(n.op, ast.And):
+        return False if any(v is False for v in vs) else (True if all(v is True for v in vs) else None)
+      return True if any(v is True for v in vs) else (False if all(v is False for v in vs) else None)
+    if isinstance(n, ast.UnaryOp) and isinstance(n.op, ast.Not):
+      v = ev(n.operand)
+      return None if v is None else not v
+    if isinstance(n, ast.Compare) and len(n.ops) == 1 and isinstance(n.comparators[0], ast.Constant) and n.comparators[0].value == 0 and isinstance(n.ops[0], (ast.Eq, ast.NotEq)):
+      v = ev(n.left)
+      if v is None:
+        return None
+      return (not v) if isinstance(n.ops[0], ast.Eq) else v
+    return asg.get(ast.unparse(n))
+
+  return ev(node)
+
+
+def _simple(pc) -> Dict[str, bool]:
+  import ast
+
+  out = {}
+  for t, p in _norm(pc):
+    try:
+      n = ast.parse(t, mode="eval").body
+    except SyntaxError:
+      continue
+    if not isinstance(n, ast.BoolOp):
+      if isinstance(n, ast.UnaryOp) and isinstance(n.op, ast.Not):
+        out[ast.unparse(n.operand)] = not p
+      else:
+        out[ast.unparse(n)] = p
+  return out
+
+
+def _contradict(pc1, pc2) -> bool:
+  """no model/option assignment satisfies both path conditions (simple atoms syntactically, compound `or`/`and` tests by
+  three-valued evaluation under the other side's simple atoms)"""
+  if effects.contradictory(_norm(pc1), _norm(pc2)):
+    return True
+  for a, b in ((pc1, pc2), (pc2, pc1)):
+    asg = _simple(b)
+    for t, p in a:
+      v = _eval3(t, asg)
+      if v is not None and v != p:
+        return True
+  return False
+
+
 def _meets(a: Set, b: Set) -> bool:
   return bool(a and b and (ALL in a or ALL in b or a & b))
 
@@ -116,10 +175,10 @@ def check_both_order_writers(res, db, entries, min_instances: int = 0) -> int:
             """some path on which an a-event precedes a b-event and no b-event can precede that a-event"""
             for i, ea in ae:
               for j, eb in be:
-                if j <= i or effects.contradictory(_norm(ea.ev.pc), _norm(eb.ev.pc)):
+                if j <= i or _contradict(ea.ev.pc, eb.ev.pc):
                   continue
-                cond = _norm(ea.ev.pc) + _norm(eb.ev.pc)
-                if not any(jj < i and not effects.contradictory(_norm(e2.ev.pc), cond) for jj, e2 in be):
+                cond = tuple(ea.ev.pc) + tuple(eb.ev.pc)
+                if not any(jj < i and not _contradict(e2.ev.pc, cond) for jj, e2 in be):
                   return ea, eb
             return None
 
